@@ -205,7 +205,7 @@ def run(chk):
     # (three one-operand variants out of a pool of 165 are 117 million scenarios: beyond two variants the space is sampled by TLC's simulator)
     plan = [('one-operand', 'Pool1', 'Texts1', 2, None), ('two-operand', 'Pool2', 'Texts2', 1 if quick else 2, None)]
     if not quick:
-        plan.append(('one-operand-three-variants-simulated', 'Pool1', 'Texts1', 3, 'num=60000'))
+        plan.append(('one-operand-three-variants-simulated', 'Pool1', 'Texts1', 3, 'num=300'))     # the simulator evaluates Emit on every successor it generates: about 500 scenarios per behaviour
     for tag, pool, texts, mv, sim in plan:
         res = tlc.run_tlc('MC_Match', f'SPECIFICATION Spec\nCONSTANTS\n  VariantPool <- {pool}\n  TextTuples <- {texts}\n  MaxVariants = {mv}\n'
                           + ''.join(f'INVARIANT {i}\n' for i in INV), workers=16 if sim is None else 1, timeout=3000, simulate=sim, depth=(mv + 2) if sim else None,
